@@ -20,12 +20,20 @@ def sleepq(name, nintr, extra=(), kf=None, solver="z3", unit_defs=(), tmo=900):
     return Q(name, "harness/C19_sleep.c", units=UNITS, models=MODELS, defs=["NINTR=%d" % nintr] + list(extra), includes=["models/clock_model.h"],
              unit_defs=list(unit_defs), unwindset={"p_uthread_sleep.0": nintr + 2}, funcs=["p_uthread_sleep", "p_error_get_last_system"], kf=kf,
              bounds={"msec": "all 2^32 values", "interruptions": nintr, "remaining_time": "any normalised 0<=rem<=req"}, timeout=tmo, solver=solver)
+def reent(na, nb, extra=(), solver="z3", tmo=900):
+    return Q("sleep_two_threads_intr%d_%d" % (na, nb), "harness/C19_sleep_reent.c", units=UNITS, models=MODELS,
+             defs=["NINTR=%d" % na, "NINTR_B=%d" % nb, "VM_SLEEP_HOOK"] + list(extra), includes=["models/clock_model.h"],
+             unwindset={"p_uthread_sleep.0": max(na, nb) + 2}, funcs=["p_uthread_sleep"],
+             bounds={"msec": "all 2^32 values for both sleepers", "interruptions_A": na, "interruptions_B": nb,
+                     "nesting": "one complete sleep of thread B inside one kernel sleep of thread A (entry or after the remainder was written)"},
+             timeout=tmo, solver=solver)
 def queries(tier):
     n = 3 if tier == "quick" else 8
     qs = [sleepq("sleep_intr%d" % n, n),                                   # local-invariant form, clock_nanosleep branch (as built)
           sleepq("sleep_sum_intr1", 1, ["CHECK_SUM"], solver="cvc5"),     # end-to-end sum of the model clock
           sleepq("sleep_nanosleep_intr%d" % n, n, unit_defs=["-UPLIBSYS_HAS_CLOCKNANOSLEEP"]),   # the nanosleep() branch of the same function
-          sleepq("sleep_kf_demo", 1, ["KF_DEMO"], kf="C19_sleep_eintr_errno")]
+          sleepq("sleep_kf_demo", 1, ["KF_DEMO"], kf="C19_sleep_eintr_errno"),
+          reent(2, 2) if tier == "quick" else reent(3, 3, tmo=2400)]
     if tier != "quick":
         qs.append(sleepq("sleep_sum_intr2", 2, ["CHECK_SUM"], solver="cvc5", tmo=2400))
     return qs
